@@ -1,6 +1,7 @@
 import TruthModel.Props.C03Instr
 import TruthModel.Props.C03Files
 import TruthModel.Props.C03Anm
+import TruthModel.Props.C03Ecl10
 /-
 C03 — a successful compile never writes a file that differs from what was asked.
 
@@ -11,4 +12,8 @@ C03 — a successful compile never writes a file that differs from what was aske
   files (`*_read_write`, `*_write_err_iff`), on the models of `Model/Files.lean`, `Model/FilesEcl.lean`.
 * `Props/C03Anm.lean`: the ANM container, every version (`anm_read_write`, `anm_write_err_iff`, and the witnesses of
   what `write_anm` narrows or drops without a diagnostic), on the model of `Model/FilesAnm.lean`.
+* `Props/C03Ecl10.lean`: stack ECL (TH10 and later) - the 16-byte instruction header (`read_write10`,
+  `write10_err_iff_not_fits`, `readInstrs10_writeInstrs10`) on `Model/InstrIO10.lean`, and the container
+  (`string_list_roundtrip`, `ecl10_read_write`, `ecl10_write_err_iff`, `ecl10_write_ok_no_narrowing`, the witness
+  `ecl10_nul_in_name_unreadable` / `ecl10_read_write_full_false`) on `Model/FilesEcl10.lean`.
 -/
